@@ -6,7 +6,10 @@
 (*   [name, defs : Seq([attr, code, vendor, req, mand (-1 dictionary / 0 / 1),*)
 (*                      cont (container class name or ""), dx (dictionary   *)
 (*                      entry exists), dg (entry is Grouped), dm (entry's   *)
-(*                      mandatory flag), list (attribute holds a list)])]   *)
+(*                      mandatory flag), list (attribute holds a list),     *)
+(*                      annotated, listann, listdef (what the class's        *)
+(*                      annotation and a fresh instance say about that)]),   *)
+(*    annonly : Seq(attr) (annotated public attributes without a definition)]*)
 (* The tables are read from the code under test (the "programs" the        *)
 (* property quantifies over); what follows is written from the property:   *)
 (*   WellFormed  - each attribute one dictionary AVP, container => Grouped, *)
@@ -39,6 +42,13 @@ Viol(t) ==
                                      /\ D[p[1]].attr # D[p[2]].attr}}
    \cup {[k |-> "attribute_declared_twice", attr |-> D[p[2]].attr, other |-> ""] :
               p \in {p \in I \X I : p[1] < p[2] /\ D[p[1]].attr = D[p[2]].attr}}
+   \* the class's own declarations agree: an attribute annotated list[...] holds a list on a fresh instance (decoding appends to
+   \* it; otherwise only the last element received survives) and vice versa; every annotated attribute has a definition
+   \cup {[k |-> "list_attribute_not_initialised_as_list", attr |-> D[i].attr, other |-> ""] :
+              i \in {i \in I : D[i].annotated /\ D[i].listann /\ ~D[i].listdef}}
+   \cup {[k |-> "list_default_for_attribute_not_annotated_as_list", attr |-> D[i].attr, other |-> ""] :
+              i \in {i \in I : D[i].annotated /\ ~D[i].listann /\ D[i].listdef}}
+   \cup {[k |-> "annotated_attribute_without_definition", attr |-> t.annonly[i], other |-> ""] : i \in DOMAIN t.annonly}
 WellFormed(t) == Viol(t) = {}
 
 \* the declaration of an attribute: its first occurrence in the table
